@@ -710,7 +710,7 @@ func (t *FnTrans) calleeEnv(callee *ssa.Function, con *Contract, args []Val, st 
 	if callee.Pkg != nil {
 		pkg = callee.Pkg.Pkg
 	}
-	e := &Env{t: t, st: st, vars: vars, pkg: pkg}
+	e := &Env{t: t, st: st, vars: vars, pkg: pkg, callee: true}
 	e.old = e
 	return e
 }
@@ -809,7 +809,7 @@ func (t *FnTrans) contractCall(x *ssa.Call, callee *ssa.Function, con *Contract,
 	}
 	res := t.havocVal(x.Type(), "ret."+callee.Name())
 	t.setVal(x, res)
-	post := &Env{t: t, st: st.clone(), vars: map[string]Val{}, pkg: pre.pkg, old: pre, guard: reach}
+	post := &Env{t: t, st: st.clone(), vars: map[string]Val{}, pkg: pre.pkg, old: pre, guard: reach, callee: true}
 	for k, v := range pre.vars {
 		post.vars[k] = v
 	}
@@ -1201,7 +1201,11 @@ func (t *FnTrans) siteHook(kind string, in ssa.Instruction, b *ssa.BasicBlock, i
 				defer func() {
 					if r := recover(); r != nil {
 						if ee, ok := r.(*exprError); ok {
-							t.contractErrors = append(t.contractErrors, fmt.Sprintf("%s:%d: %s", h.File, h.Line, ee.msg))
+							if strings.Contains(ee.msg, "stale identifier") {
+								t.staleClauses = append(t.staleClauses, fmt.Sprintf("hint: %s:%d: %s", h.File, h.Line, ee.msg))
+							} else {
+								t.contractErrors = append(t.contractErrors, fmt.Sprintf("%s:%d: %s", h.File, h.Line, ee.msg))
+							}
 							return
 						}
 						panic(r)
@@ -1233,7 +1237,11 @@ func (t *FnTrans) siteHook(kind string, in ssa.Instruction, b *ssa.BasicBlock, i
 				defer func() {
 					if r := recover(); r != nil {
 						if ee, ok := r.(*exprError); ok {
-							t.contractErrors = append(t.contractErrors, fmt.Sprintf("%s:%d: %s", g.Value.File, g.Value.Line, ee.msg))
+							if strings.Contains(ee.msg, "stale identifier") {
+								t.staleClauses = append(t.staleClauses, fmt.Sprintf("ghostset: %s:%d: %s", g.Value.File, g.Value.Line, ee.msg))
+							} else {
+								t.contractErrors = append(t.contractErrors, fmt.Sprintf("%s:%d: %s", g.Value.File, g.Value.Line, ee.msg))
+							}
 							return
 						}
 						panic(r)
@@ -1295,7 +1303,7 @@ func (t *FnTrans) invokeContractCall(x *ssa.Call, c *ssa.CallCommon, con *Contra
 		p := sig.Params().At(i)
 		vars[p.Name()] = t.materialize(args[i], p.Type())
 	}
-	pre := &Env{t: t, st: st.clone(), vars: vars, pkg: c.Method.Pkg()}
+	pre := &Env{t: t, st: st.clone(), vars: vars, pkg: c.Method.Pkg(), callee: true}
 	pre.old = pre
 	for k, cl := range con.Requires {
 		t.addObl("requires@call", c.Method.Name()+":"+fmt.Sprint(k+1), reach, Formula{Clause: cl, Env: pre}, x.Pos(), cl.Text)
@@ -1306,7 +1314,7 @@ func (t *FnTrans) invokeContractCall(x *ssa.Call, c *ssa.CallCommon, con *Contra
 	}
 	res := t.havocVal(x.Type(), "ret."+c.Method.Name())
 	t.setVal(x, res)
-	post := &Env{t: t, st: st.clone(), vars: map[string]Val{}, pkg: pre.pkg, old: pre, guard: reach}
+	post := &Env{t: t, st: st.clone(), vars: map[string]Val{}, pkg: pre.pkg, old: pre, guard: reach, callee: true}
 	for k, v := range vars {
 		post.vars[k] = v
 	}
